@@ -160,7 +160,8 @@ namespace cdsv {
                     }
                 }
                 unsigned nc = mrng.chance( 1, 2 ) ? 0 : mrng.range( 1, 7 );
-                unsigned stalls = mrng.chance( 1, 32 ) ? mrng.range( 1, 2 ) : 0;
+                // targeted long stalls: in 1 of 32 short rounds, in every second segment (max_ops > 6)
+                unsigned stalls = mrng.chance( 1, m_plan.max_ops > 6 ? 2 : 32 ) ? mrng.range( 1, 3 ) : 0;
                 cdsv_rt_configure( m_seed + m_round, nc, stalls, expected_steps );
                 double ta = wall_now();
                 m_bar.wait();   // B1
